@@ -213,6 +213,9 @@ def records_for(pid, tier, results):
                 rec["status"] = "undecided"; rec["detail"] = [r["undecided"][:1500]]
             elif not nc_failed:
                 rec["status"] = "undecided"; rec["detail"] = ["vacuity guard: the unit's negative control did not fail"]
+            elif errs and info and info.get("hints_skipped"):
+                rec["status"] = "undecided"
+                rec["detail"] = [f"{info['hints_skipped']} proof hint(s) lost their anchor in the edited source, so the failed proof decides nothing (contract needs review): " + errs[0]["detail"]]
             elif errs:
                 if all(e.get("rlimit") for e in errs):
                     rec["status"] = "undecided"; rec["detail"] = ["rlimit exceeded: " + e["detail"] for e in errs]
